@@ -121,7 +121,7 @@ def main(argv=None):
             searched = True
             print("proof obligation / correspondence broken; searching the implementation for a failing input ...",
                   flush=True)
-            ctx2 = core.Ctx(prop_id, a.tier, seed + 1, scale=max(10, ctx.scale * 10), oracle_only=True)
+            ctx2 = core.Ctx(prop_id, a.tier, seed + 1, scale=max(10, min(ctx.scale * 10, 200)), oracle_only=True)
             hints = [f["case"] for f in ctx.corr_failures]
             ctx2.hints = hints
             try:
